@@ -387,8 +387,16 @@ def check_transpose(case, ctx):
             posT = [(y, x) for (x, y) in pos]
             th = case['theta']
             cls = EllipticalAperture if case['shape'] == 'ellipse' else RectangularAperture
-            a0 = cls(pos, case['r'], 0.6 * case['r'], theta=th)
-            a1 = cls(posT, case['r'], 0.6 * case['r'], theta=math.pi / 2 - th)
+            if case.get('theta_deg'):
+                # the same angles as Quantities in degrees
+                import astropy.units as u
+                th0 = math.degrees(th) * u.deg
+                a0 = cls(pos, case['r'], 0.6 * case['r'], theta=th0)
+                a1 = cls(posT, case['r'], 0.6 * case['r'], theta=90 * u.deg - th0)
+                ctx.event('theta_in_degrees')
+            else:
+                a0 = cls(pos, case['r'], 0.6 * case['r'], theta=th)
+                a1 = cls(posT, case['r'], 0.6 * case['r'], theta=math.pi / 2 - th)
             t0 = aperture_photometry(img, a0, error=err, mask=mask, method=case['method'])
             t1 = aperture_photometry(imgT, a1, error=errT, mask=maskT, method=case['method'])
             atol = 2e-3 if (cls is RectangularAperture or case['method'] == 'subpixel') else 0
@@ -521,7 +529,8 @@ def transpose_cases(draw):
             'shape': draw(st.sampled_from(['ellipse', 'ellipse', 'rect'])),
             'method': draw(st.sampled_from(['exact', 'center', 'subpixel'])),
             'localbkg_width': draw(st.sampled_from([0, 4, 7])),
-            'theta': draw(st.floats(0, 3.1))}
+            'theta': draw(st.floats(0, 3.1)),
+            'theta_deg': draw(st.booleans())}
 
 
 def _centroid_transpose_cases():
